@@ -7,12 +7,14 @@
    analyser is a fold of `step` (= IVisitor::visit) over that list followed by notify_end.
 
    `keyf` is the function applied to a name before it is used as a key of cur_local_vars.
-   The code today uses the spelling itself (`get_identifier().to_string()`): keyf := key_today.
-   A repair that upper-cases the keys is keyf := upper; the theorems are generic in keyf. *)
+   Since /repo e5fd419 the code uses `get_identifier().to_uppercase()`: keyf := key_today = upper
+   (before: the spelling itself).  The message prints the DECLARED spelling
+   (`val.ident_token.get_value_as_str()`), and since /repo 993bb42 a terminal whose token is a
+   string literal is skipped before the map lookup.  The theorems are generic in keyf. *)
 From GoldV Require Import Base Tokens Lexer AstKinds Tree.
 
-(* THE line to change when the keys get upper-cased in the code:  := upper s.  (the message then prints the upper-cased key, as the code would with `format!("Unused var: {}", key)`) *)
-Definition key_today (s : str) : str := s.
+(* the key function of the code as it is: names are case-insensitive *)
+Definition key_today (s : str) : str := upper s.
 
 (* ---- the walker ------------------------------------------------------------------------- *)
 
@@ -44,13 +46,13 @@ Definition events (file : node) : list ev := walk_list file (nchildren file).
 
 (* ---- the analyser ----------------------------------------------------------------------- *)
 
-Record vinfo := mkV { vuses : N; vrange : range }.     (* VarInfo: use_count, ident_token (its range) *)
+Record vinfo := mkV { vuses : N; vrange : range; vname : str }.   (* VarInfo: use_count, ident_token (its range, its value) *)
 
 Record diag := mkDiag {
   dsev : N;            (* DiagnosticSeverity: 1 ERROR, 2 WARNING *)
   dclass : N;          (* 0 = "Unused var: <key>", 1 = "Var name already declared" *)
   drange : range;
-  dkey : str           (* the key printed in the message ([] for class 1) *)
+  dkey : str           (* the name printed in the message ([] for class 1) *)
 }.
 
 Record st := mkSt {
@@ -69,9 +71,10 @@ Definition CL_DUP : N := 1.
 Definition ident_range (n : node) : range :=
   match attr_tok K_ident n with Some t => trange t | None => nrange n end.
 
+(* format!("Unused var: {}", val.ident_token.get_value_as_str()) *)
 Definition unused_of (m : list (str * vinfo)) : list diag :=
   flat_map (fun kv => if vuses (snd kv) =? 0
-                      then [mkDiag SEV_WARNING CL_UNUSED (vrange (snd kv)) (fst kv)] else []) m.
+                      then [mkDiag SEV_WARNING CL_UNUSED (vrange (snd kv)) (vname (snd kv))] else []) m.
 
 (* check_unused_vars (HashMap iteration; order unobservable) *)
 Definition check_unused (s : st) : st := mkSt (cur s) (diags s ++ unused_of (cur s)).
@@ -101,22 +104,28 @@ Definition is_left_node (p n : node) : bool :=
          end
   else true.
 
-(* notify_terminal_node *)
+(* terminal.token.token_type == TokenType::StringLiteral (the K_token attribute of the dump) *)
+Definition is_string_lit (n : node) : bool :=
+  match attr_tok K_token n with Some t => tt_eqb (tty t) TStringLiteral | None => false end.
+
+(* notify_terminal_node: a string literal is skipped before the lookup *)
 Definition notify_terminal (keyf : str -> str) (s : st) (p n : node) : st :=
+  if is_string_lit n then s else
   let k := keyf (nident n) in
   match alookup k (cur s) with
   | Some v => if is_left_node p n
-              then mkSt (ainsert k (mkV (vuses v + 1) (vrange v)) (cur s)) (diags s)
+              then mkSt (ainsert k (mkV (vuses v + 1) (vrange v) (vname v)) (cur s)) (diags s)
               else s
   | None => s
   end.
 
-(* notify_local_var_node *)
+(* notify_local_var_node.  ident_token.value is the declaration's own identifier:
+   AstLocalVariableDeclaration::get_identifier() returns identifier.get_value_as_str() *)
 Definition notify_local_var (keyf : str -> str) (s : st) (n : node) : st :=
   let k := keyf (nident n) in
   match alookup k (cur s) with
   | Some _ => mkSt (cur s) (diags s ++ [mkDiag SEV_ERROR CL_DUP (ident_range n) []])
-  | None => mkSt (ainsert k (mkV 0 (ident_range n)) (cur s)) (diags s)
+  | None => mkSt (ainsert k (mkV 0 (ident_range n) (nident n)) (cur s)) (diags s)
   end.
 
 (* IVisitor::visit: four successive downcasts *)
